@@ -3,7 +3,7 @@
    exactly like the reference semantics of its plan. *)
 From Coq Require Import List Arith Bool Lia.
 Import ListNotations.
-From NJ Require Import Base Registry Classify Select Reorder Machine Spec Bind Refine.
+From NJ Require Import Base Registry Classify Select Reorder Machine Spec Bind Refine SpecLemmas.
 
 (* ---------- reflection of the boolean equalities ---------- *)
 Lemma on_eqb_eq a b : on_eqb a b = true -> a = b.
@@ -203,6 +203,7 @@ Proof.
   apply andb_true_iff in Hwf. destruct Hwf as [Hwf Hinitc].
   apply andb_true_iff in Hwf. destruct Hwf as [Hwf Hstc].
   apply andb_true_iff in Hwf. destruct Hwf as [Hwf Hrunc].
+  apply andb_true_iff in Hwf. destruct Hwf as [Hwf Hwc].
   apply andb_true_iff in Hwf. destruct Hwf as [Hwf Hclean].
   apply andb_true_iff in Hwf. destruct Hwf as [Hwf Hlen].
   intros W beh_fn beh_wrap steps w0.
@@ -227,4 +228,23 @@ Proof.
     + intros t i Hs. rewrite forallb_forall in Hclean.
       assert (Hin : In i (slot_idx (sl_up sl))) by (eapply slot_idx_in; apply su_in; eauto).
       specialize (Hclean i Hin). destruct (aget i base); try discriminate. reflexivity.
+Qed.
+
+(* C04, run time: a bound chain never hands reflect.Call an invalid Value (the model's only
+   run-time failure), for any provider behaviour and any session. *)
+Theorem run_safe :
+  forall (c : bcase) (pl : plan) (b : bound),
+    bind_chain c = Ok (pl, b) -> plan_wf (bc_te c) pl b = true ->
+    forall (W : Type) (beh_fn : nat -> W -> list val -> W * list val)
+           (beh_wrap : nat -> W -> list val -> wtree W) (steps : list step) (w0 : W),
+      ~ In RPanic (snd (run_session W beh_fn beh_wrap b (mkSess W w0 (bd_base0 b) false true) steps)).
+Proof.
+  intros c pl b Hb Hwf W beh_fn beh_wrap steps w0.
+  destruct (chain_refines c pl b Hb Hwf) as (sp & Hsp & Href).
+  destruct (Href W beh_fn beh_wrap steps w0) as [Hres _]. cbv zeta in Hres. rewrite Hres.
+  assert (Hwc : forallb well_classed (sp_run sp) = true).
+  { unfold plan_wf in Hwf. rewrite Hsp in Hwf.
+    repeat (apply andb_true_iff in Hwf; destruct Hwf as [Hwf ?]).
+    match goal with H : forallb well_classed (sp_run sp) = true |- _ => exact H end. }
+  apply (SpecLemmas.sem_session_no_panic W beh_fn beh_wrap (te_errorT (bc_te c)) sp Hwc steps). reflexivity.
 Qed.
